@@ -49,6 +49,9 @@ pub trait Flavor: 'static {
 
     fn new_unique(v: OVal) -> Self::U;
     fn new_shared(v: OVal) -> Self::S;
+    /// `Default::default()` (value = OVal::default())
+    fn default_unique() -> Self::U;
+    fn default_shared() -> Self::S;
     fn into_shared(u: Self::U) -> Self::S;
 
     // unique
@@ -136,6 +139,12 @@ impl Flavor for SyncF {
     }
     fn new_shared(v: OVal) -> Self::S {
         SharedObservable::new(v)
+    }
+    fn default_unique() -> Self::U {
+        Default::default()
+    }
+    fn default_shared() -> Self::S {
+        Default::default()
     }
     fn into_shared(u: Self::U) -> Self::S {
         Observable::into_shared(u)
@@ -331,6 +340,12 @@ impl Flavor for AsyncF {
     }
     fn new_shared(v: OVal) -> Self::S {
         SharedObservable::new_async(v)
+    }
+    fn default_unique() -> Self::U {
+        Default::default()
+    }
+    fn default_shared() -> Self::S {
+        Default::default()
     }
     fn into_shared(u: Self::U) -> Self::S {
         Observable::into_shared(u)
